@@ -327,6 +327,14 @@ Flush(v) ==
   /\ UNCHANGED <<gvars, phase, status, errs, handled, cancelled, msgs, att, last, sem, lockBusy, result,
                  retnil, failed, spd, wk, sk, exited, launched>>
 
+\* the same when the writer reports an error (a closed file ...): Run ignores the error; what was not written stays
+\* in the worker's buffer and goes out again with the output of the next attempt
+FlushFail(v) ==
+  /\ w[v] = "exited" /\ buffered
+  /\ w' = [w EXCEPT ![v] = "flushed"]
+  /\ UNCHANGED <<gvars, phase, status, errs, handled, cancelled, msgs, att, last, sem, lockBusy, result, buf, wlog,
+                 retnil, failed, spd, wk, sk, exited, launched>>
+
 \* the retry loop is over: block on `done <- IDErr{v, err}`
 Sending(v) ==
   /\ w[v] \in {"exited", "flushed"} /\ (buffered => w[v] = "flushed")
